@@ -21,6 +21,7 @@ ASSUMPTIONS = [
     "secp256k1",
 ]
 OBLIGATIONS = {
+    "long_history": "operations executed in one long history (every key of a 199-element group, forward / forward / reverse)",
     "history_sequences": "operation sequences (non-initial process states) explored",
     "concurrent_calls": "interleavings of two concurrent scalar multiplications (cold and after sequential warm-up calls)",
     "add_identity": "P + identity / identity + identity evaluated",
@@ -241,6 +242,17 @@ def run_case(kind, case):
     return CASES[kind](case)
 
 
+def long_ops(job):
+    """the public key of EVERY secret key of the p=211 curve and k*G for every k (as a plain multiplication)"""
+    cv = job["curve"]
+    C = smallcurve.curve(cv)
+    ops = []
+    for d in range(1, C.n):
+        ops.append(("privkey", {"curve": cv, "key": d.to_bytes(32, "big").hex()}))
+        ops.append(("mul", {"curve": cv, "k": d, "P": list(C.mul(d, C.G))}))
+    return ops
+
+
 def seq_ops(job):
     if job.get("name", "").startswith("seqreal"):
         # secp256k1 itself: public keys of secret-key pairs that a too-coarse memo key cannot tell apart (vf/classes.py)
@@ -300,12 +312,17 @@ def jobs(tier, seed):
     from vf.runner import seq_jobs
     js += seq_jobs(3, curve=list(smallcurve.TABLE[0]), weight=3)
     js += seq_jobs(1, weight=3, name="seqreal")
+    from vf.runner import long_jobs
+    js += long_jobs(curve=list(smallcurve.TABLE[5]))
     for i in range(3):
         js.append({"name": f"concurrent-mul/{i}", "part": "concur", "curve": list(smallcurve.TABLE[0]), "idx": i, "weight": 5})
     return js
 
 
 def run_job(job):
+    if job["part"] == "longhist":
+        from vf.runner import run_long_job
+        return run_long_job(job, long_ops(job), run_case)
     if job["part"] == "seq":
         from vf.runner import run_seq_job
         return run_seq_job(job, seq_ops(job), run_case)
